@@ -33,6 +33,9 @@ SCHEMAS = {
     "property_names": (7, "obj_int", lambda m, n: {"propertyNames": {"maxLength": 1, "pattern": "^a"}, "additionalProperties": {"maximum": m}}),
     "same_path_same_keyword": (7, "obj_int", lambda m, n: {"allOf": [{"additionalProperties": {"maximum": m}}, {"additionalProperties": {"maximum": n}}],
                                                            "anyOf": [{"maxProperties": 0}, {"required": ["a"]}]}),
+    "names_and_deep": (7, "obj_obj_int", lambda m, n: {"propertyNames": {"maxLength": 0}, "properties": {"a": {"properties": {"b": {"maximum": m}},
+                                                                                                       "additionalProperties": {"minimum": n}}}}),
+    "deep_then_names": (6, "obj_obj_int", lambda m, n: {"additionalProperties": {"additionalProperties": {"maximum": m}}, "propertyNames": {"pattern": "^b"}}),
     "nested_arr": (7, "arr_arr_int", lambda m, n: {"items": {"items": {"maximum": m}, "maxItems": 1}, "maxItems": 1}),
     "nested_obj_arr": (6, "obj_arr_int", lambda m, n: {"additionalProperties": {"items": {"maximum": m}, "minItems": 2}, "required": ["a"]}),
 }
